@@ -16,6 +16,10 @@ CLAIMED = {
          'C14_forward/C14_final_sticky/C14_unknown_ignored prove for every stream of pilot notifications that callbacks form a chain of repeats or single forward steps (gaps filled), that a final state is never left and unknown pilots are ignored; C14_done/C14_canceled/C14_failed prove the cause -> final state mapping for every event sequence of the agent. agentCause_tie (decide over the regenerated Gen/AgentCause.lean) re-checks on every run which method records which cause and whether stop() preserves it.',
          'Trusted: Lean kernel, translator (AST patterns of agent_0.py), harness; the batch system killing the job is the no-finalize case; bash runs the bootstrapper block.',
          'DESIGN.md section 6 C14'),
+ 'C15': ('Lean 4 proof (induction on fuel = termination bounds for the four polling loops) + differential tie under a virtual clock to Task.wait, Pilot.wait, wait_tasks, wait_pilots',
+         'C15_entity_returns / C15_wait_tasks_returns / C15_wait_pilots_returns prove for every request form, every trajectory and every timeout that the loops return at most one polling tick after all awaited entities are in a requested or final state; C15_*_timeout bound the return by the timeout; C15_entity_honest and the result clauses show the returned values are the actual states. Non-termination of the pre-fix loops is exactly what these theorems exclude. The real loops run under a patched time.sleep/time.time against scripted trajectories of real Task/Pilot objects.',
+         'Trusted: Lean kernel, harness virtual clock; "shortly" = one polling tick; a state entered and left between two polls is invisible to the exact-membership loops; _terminate not set.',
+         'DESIGN.md section 6 C15'),
 }
 
 NOT_YET = {}
